@@ -299,4 +299,36 @@ def rrunP (p : LeaseParent) (s : RSt) : List REv → RSt
 
 def rrun (s : RSt) (es : List REv) : RSt := rrunP leaseParent s es
 
+/-! ## Part 4: a renewal request that is answered late
+
+`renewLease` calls `renewLeaseOnce(context.Background(), key, l)` on every ticker period: the request is not bounded
+by anything, the goroutine simply waits until the KV has answered, however long the DHT takes (a slow hop, a retry, a
+latency spike). A request that needs `lat` to reach the KV is therefore "time `lat` passes, then the renewal is
+evaluated": accepted iff the lease is still unexpired then. The goroutine ends only on an ERROR of the renewal, and a
+slow answer is not an error. -/
+
+/-- the context `renewLease` gives each renewal attempt -/
+inductive RenewCtx where
+  | background                -- `context.Background()` — acme/storage.go
+  | perAttempt (bound : Nat)  -- a deadline of `bound` per attempt — NOT what the code does; kept to show what the property needs
+  deriving Repr, DecidableEq
+
+/-- acme/storage.go `renewLease`: `c.renewLeaseOnce(context.Background(), key, l)` -/
+def renewCtx : RenewCtx := .background
+
+/-- `case <-ticker.C` of instance `i`'s goroutine when the request needs `lat` to reach the KV. With a per-attempt
+deadline that the latency reaches, `Renew` returns the context's error after `bound`, the KV is never asked, and the
+goroutine returns — exactly as on a KV fault. -/
+def slowRenewP (c : RenewCtx) (s : RSt) (i ttl lat : Nat) : RSt × LOut :=
+  if i ∈ s.tickers then
+    match c with
+    | .background => rstep (rstep s (.ev (.tick lat))).1 (.ev (.renew i ttl))
+    | .perAttempt b =>
+      if lat < b then rstep (rstep s (.ev (.tick lat))).1 (.ev (.renew i ttl))
+      else rstep (rstep s (.ev (.tick b))).1 (.kvFault i)
+  else (s, .none)
+
+/-- the code -/
+def slowRenew (s : RSt) (i ttl lat : Nat) : RSt × LOut := slowRenewP renewCtx s i ttl lat
+
 end Specter.C49
